@@ -48,7 +48,14 @@ func site(skip int) string {
 	return filepath.Base(file) + ":" + strconv.Itoa(line)
 }
 
+// Track switches the held-lock registry (a process-wide mutex) on and off. Off in the
+// free-running race mode, where the simulated locks must synchronise no more than real ones.
+var Track = true
+
 func track(c *core, s string) {
+	if !Track {
+		return
+	}
 	regMu.Lock()
 	reg[c] = struct{}{}
 	sites[s]++
